@@ -69,7 +69,7 @@ PROPS = {
              [], extra_modules=('C12Ctx', 'C12Doc',)),
     'C13': P('C13', [('refs', 12500, 100000), ('pipeline', 1500, 12000), ('block', 3000, 24000)], ('C13', 20000, 160000),
              "oracle: k definitions (case/whitespace/case-fold variants, in quotes and items, before/after the use) x 4 use forms; expected target = first definition of the same base label",
-             ["U+0131 dotless i is additionally identified with i/I by lower-then-upper normalisation (documented, not tested as a non-match)"], extra_modules=(('LinksDoc', r'reference_no_node|first_wins|parseBlocks_refs$|tokenize_refs|reference_step|doc_reference|spliceNode_spec'),)),
+             ["U+0131 dotless i is additionally identified with i/I by lower-then-upper normalisation (documented, not tested as a non-match)"], extra_modules=('C13Trace', ('LinksDoc', r'reference_no_node|first_wins|parseBlocks_refs$|tokenize_refs|reference_step|doc_reference|spliceNode_spec'),)),
     'C14': P('C14', [('inlineops', 10000, 80000), ('block', 6000, 48000), ('inline', 5000, 40000), ('pipeline', 1500, 12000), ('pipetabs', 1000, 8000)], ('C14', 25000, 200000),
              "oracle: WF on every parsed tree for all generators x configurations containing the paragraph rule",
              [], extra_modules=(('C14Doc', r'doc_inline_leaves|doc_text_nf_nojoin|doc_tree_wf_full|not_wf_without_paraLast|tokenize_tight|parseBlocks_noAdjInl|shape_induction|parseInline_shapes'), ('Pipeline', r'doc_tree_wf|fragmentsJoin_nf|fragmentsJoin_mem|spliceList_kinds|spliceList_wf|spliceList_every|joinNode_wf_aux|joinNode_every|sourceposNode_wf|parseBlocks_wf|tokenize_wf|runChain_para|parseDoc_stages'), ('Block', r'list_shape'), ('Inline', r'no_placeholder|allNF'),)),
